@@ -116,7 +116,7 @@ def judge(ctx, fam, cases, verd, K, nontrivial, pending, traces):
             ctx.cov["not_judged_wire_ambiguous"] = ctx.cov.get("not_judged_wire_ambiguous", 0) + 1
             continue
         if not blind:
-            traces.setdefault((len(v["pa"]), len(v["ra"])), []).extend(osx.trace_lines(v, o, sv))
+            traces.setdefault((len(v["pa"]), len(v["ra"])), []).append((c["id"], osx.trace_lines(v, o, sv)))
         if so != inv or (al["mustInvoke"] and not so) or (al["mustReject"] and so):
             what = "schema-accepts/server-rejects" if so and not inv else ("schema-rejects/server-accepts" if inv and not so else
                                                                            ("both-accept-invalid" if so else "both-reject-valid"))
@@ -131,7 +131,10 @@ def judge(ctx, fam, cases, verd, K, nontrivial, pending, traces):
 def run(ctx):
     quick = ctx.quick()
     extra_known(ctx)
-    K = frozenset(d for d in ALL if d in ctx.known)
+    # (DEDUP is a defect of a whole design, not of an exchange: it is never assumed when an exchange is explained or its
+    #  trace validated - a body disagreement nothing else explains is re-run in a design of its own, and only if it is gone
+    #  there is it filed under DEDUP)
+    K = frozenset(d for d in ALL if d in ctx.known and d != DEDUP)
     ctx.cov["rule"] = ("cases = exchanges (method shape, value vector) enumerated by TLC: the request family of C04 plus raw requests (wrong-type text, negative "
                        "unsigned, JSON null), the result family of C03, and declared-error responses of the C07 designs; each run through the generated client/"
                        "server and validated by kin-openapi against the generated openapi3.json; non-trivial = attribute outside the body, optional/defaulted, with "
@@ -176,6 +179,9 @@ def run(ctx):
         rv = [v for v in fut.result() if all(a["nest"] in KNOWN_NESTS for a in v["pa"] + v["ra"])]
         groups.append((fam, [v for v in rv if not xb(v)]))
         groups.append((fam, [v for v in rv if xb(v)]))
+    # schema.dedup_ignores_validations on purpose: two methods whose bodies differ in their validations only, in one design
+    twins = [{"kind": "int", "loc": "body", "mode": "required", "rule": r, "nest": "direct"} for r in ("min", "none")]
+    groups.append(("req", osx.gen_vectors(ctx, "req", label="Gen exchanges req (dedup twins)", workers=1, shapes=twins), {"together": True}))
     ex2.shutdown()
     cases, pl = osx.run_exchanges(ctx, [g for g in groups if g[1]])
     verd = osx.verdicts_for(ctx, cases, pl)
@@ -223,8 +229,11 @@ def run(ctx):
     solo = confirm_alone(ctx, keep)
     ctx.log("%d disagreements, %d not explained by a deviation of the exchange; %d of them re-run alone (%d shapes), %d gone when alone" % (
         len(pending), len(unexplained), len(keep), len(shapes), sum(1 for x in solo.values() if x)))
+    dedup_ids = set()
     for n, (fam, side, c, sv, what) in enumerate(unexplained):
         gone = solo.get(n)
+        if gone:
+            dedup_ids.add(c["id"])
         report(ctx, fam, side, c, sv, what, [DEDUP] if gone else [], alone=gone)
     # declared-error responses (C07 designs of the response family)
     err_traces = error_responses(ctx, K, quick)
@@ -233,6 +242,7 @@ def run(ctx):
         g.result()
     ex.shutdown()
     # (J) trace validation
+    traces = {ar: [l for cid, ls in items if cid not in dedup_ids for l in ls] for ar, items in traces.items()}
     traces.setdefault((1, 1), []).extend(err_traces)
     nlines = 0
     for (npa, nra), lines in sorted(traces.items()):
